@@ -16,13 +16,20 @@ verus! {
 //@@ InFiled
 
 /// text-size 1.1.1: `pub struct TextSize { raw: u32 }`, `pub struct TextRange { start, end }`, both derive PartialEq/Eq/Hash
-#[derive(Clone, Copy, PartialEq, Eq, Hash, Structural)]
+#[derive(Debug, Clone, Copy, PartialEq, Eq, Hash, Structural)]
 pub struct TextSize { pub raw: u32 }
-#[derive(Clone, Copy, PartialEq, Eq, Hash, Structural)]
+#[derive(Debug, Clone, Copy, PartialEq, Eq, Hash, Structural)]
 pub struct TextRange { pub start: TextSize, pub end: TextSize }
 
 #[verifier::external_body] #[derive(PartialEq, Eq, Hash)] pub struct GlobalId { _p: () }
+/// LuaTypeDeclId = ArcIntern<LuaTypeIdentifier>: opaque; `get_id` (`self.id.as_ref()`) hands out the interned identifier
 #[verifier::external_body] #[derive(PartialEq, Eq, Hash)] pub struct LuaTypeDeclId { _p: () }
+//@@ WorkspaceId
+//@@ LuaTypeIdentifier
+impl LuaTypeDeclId {
+    pub uninterp spec fn ident(&self) -> LuaTypeIdentifier;
+    #[verifier::external_body] pub fn get_id(&self) -> (r: &LuaTypeIdentifier) ensures *r == self.ident() { unimplemented!() }
+}
 // reference index: opaque per-file values, opaque keys. Keys are cloned by `remove`: derived Clone returns an equal key.
 #[verifier::external_body] pub struct FileReference { _p: () }
 #[verifier::external_body] pub struct StringReference { _p: () }
@@ -31,11 +38,19 @@ pub struct TextRange { pub start: TextSize, pub end: TextSize }
 #[verifier::external_body] #[derive(PartialEq, Eq, Hash)] pub struct LuaMemberKey { _p: () }
 #[verifier::external_body] #[derive(PartialEq, Eq, Hash)] pub struct SmolStr { _p: () }
 impl Clone for LuaMemberKey { #[verifier::external_body] fn clone(&self) -> (r: Self) ensures r == *self { unimplemented!() } }
+impl SmolStr {
+    pub uninterp spec fn text(&self) -> Seq<char>;
+    #[verifier::external_body] pub fn as_str(&self) -> (r: &str) ensures r@ == self.text() { unimplemented!() }
+}
 impl Clone for SmolStr { #[verifier::external_body] fn clone(&self) -> (r: Self) ensures r == *self { unimplemented!() } }
 //@@ LuaDeclId
 //@@ LuaOperatorId
 //@@ LuaOperatorMetaMethod
 //@@ LuaOperatorOwner
+// type index: opaque payloads
+#[verifier::external_body] pub struct LuaTypeCache { _p: () }
+#[verifier::external_body] pub struct GenericParam { _p: () }
+#[verifier::external_body] pub struct LuaType { _p: () }
 // member index
 #[verifier::external_body] pub struct LuaMember { _p: () }
 //@@ LuaMemberId
@@ -61,6 +76,10 @@ pub open spec fn keys_ok() -> bool {
     &&& vstd::std_specs::hash::obeys_key_model::<LuaMemberId>()
     &&& vstd::std_specs::hash::obeys_key_model::<LuaMemberOwner>()
     &&& vstd::std_specs::hash::obeys_key_model::<MemberOrOwner>()
+    &&& vstd::std_specs::hash::obeys_key_model::<LuaTypeDeclId>()
+    &&& vstd::std_specs::hash::obeys_key_model::<LuaTypeOwner>()
+    &&& vstd::std_specs::hash::obeys_key_model::<WorkspaceId>()
+    &&& vstd::std_specs::hash::obeys_key_model::<String>()
 }
 
 // ---- std contracts (trusted, restated from the std documentation) ---------------------------------
@@ -97,10 +116,22 @@ pub assume_specification<K, V, S, A: Allocator, F: FnMut(&K, &mut V) -> bool>[ H
     requires
         forall|k: K, v: &mut V| old(m)@.contains_key(k) && *v == old(m)@[k] ==> call_requires(f, (&k, v)),
     ensures
-        forall|k: K| #[trigger] final(m)@.contains_key(k) ==> old(m)@.contains_key(k),
-        forall|k: K| #[trigger] old(m)@.contains_key(k) ==> exists|v: &mut V, keep: bool| *v == old(m)@[k]
-            && #[trigger] call_ensures(f, (&k, v), keep)
-            && final(m)@.contains_key(k) == keep && (keep ==> final(m)@[k] == *final(v));
+        vstd::std_specs::hash::obeys_key_model::<K>() && vstd::std_specs::hash::builds_valid_hashers::<S>() ==> {
+            &&& forall|k: K| #[trigger] final(m)@.contains_key(k) ==> old(m)@.contains_key(k)
+            &&& forall|k: K| #[trigger] old(m)@.contains_key(k) ==> exists|v: &mut V, keep: bool| *v == old(m)@[k]
+                    && #[trigger] call_ensures(f, (&k, v), keep)
+                    && final(m)@.contains_key(k) == keep && (keep ==> final(m)@[k] == *final(v))
+        };
+
+/// HashMap<String, V>::remove(&str): "Removes a key from the map ... The key may be any borrowed form of the map's key type, but
+/// Hash and Eq on the borrowed form must match those for the key type" - String: Borrow<str>, equal iff same text.
+/// vstd gives no meaning to a `&str` lookup in a String-keyed map; this helper (its body is that very call) carries the contract.
+#[verifier::external_body]
+pub fn vx_remove_str_key<V>(m: &mut HashMap<String, V>, k: &str) -> (r: Option<V>)
+    ensures
+        forall|s: String| #[trigger] final(m)@.contains_key(s) <==> old(m)@.contains_key(s) && s@ != k@,
+        forall|s: String| #[trigger] final(m)@.contains_key(s) ==> final(m)@[s] == old(m)@[s],
+{ m.remove(k) }
 
 /// HashMap::get_mut: "Returns a mutable reference to the value corresponding to the key." For a present key the
 /// reference points at the stored value (`*v` is the old value) and whatever is written through it is the value
@@ -136,9 +167,11 @@ pub uninterp spec fn im_old<'a, K, V>(it: IterMut<'a, K, V>) -> Map<K, V>;
 pub uninterp spec fn im_fin<'a, K, V>(it: IterMut<'a, K, V>) -> Map<K, V>;
 pub assume_specification<'a, K, V, S, A: Allocator>[ HashMap::<K, V, S, A>::iter_mut ](m: &'a mut HashMap<K, V, S, A>) -> (it: IterMut<'a, K, V>)
     ensures
-        im_pos(it) == 0, im_old(it) == old(m)@, im_fin(it) == final(m)@,
-        im_keys(it).no_duplicates(), im_keys(it).to_set() == old(m)@.dom(),
-        final(m)@.dom() == old(m)@.dom();
+        vstd::std_specs::hash::obeys_key_model::<K>() && vstd::std_specs::hash::builds_valid_hashers::<S>() ==> {
+            &&& im_pos(it) == 0 &&& im_old(it) == old(m)@ &&& im_fin(it) == final(m)@
+            &&& im_keys(it).no_duplicates() &&& im_keys(it).to_set() == old(m)@.dom()
+            &&& final(m)@.dom() == old(m)@.dom()
+        };
 pub assume_specification<'a, K, V>[ <IterMut<'a, K, V> as Iterator>::next ](it: &mut IterMut<'a, K, V>) -> (r: Option<(&'a K, &'a mut V)>)
     ensures
         im_keys(*final(it)) == im_keys(*old(it)), im_old(*final(it)) == im_old(*old(it)), im_fin(*final(it)) == im_fin(*old(it)),
@@ -168,6 +201,13 @@ impl LuaOwnerMembers {
     //@@ LuaOwnerMembers::is_empty
 }
 //@@include c10_remove2/member_spec.rs
+//@@ LuaTypeOwner
+//@@ LuaDeclLocation
+//@@ LuaTypeDecl
+impl LuaTypeDecl {
+    //@@ LuaTypeDecl::get_mut_locations
+}
+//@@include c10_remove2/type_spec.rs
 
 // ---- extracted from /repo --------------------------------------------------------------------------
 //@@ LuaMetatableIndex
@@ -196,11 +236,16 @@ pub open spec fn mo_listed(s: &LuaMemberIndex, f: FileId) -> Set<MemberOrOwner> 
 impl LuaMemberIndex {
     //@@ LuaMemberIndex::remove
 }
+//@@ LuaTypeIndex
+//@@include c10_remove2/type_post.rs
+impl LuaTypeIndex {
+    //@@ LuaTypeIndex::remove_type_decl_name
+    //@@ LuaTypeIndex::remove
+}
 
 // ---- DbIndex::remove: the delegation to the five indexes of this unit -----------------------------------
-// the other indexes: keyed directly by file -> unit c10_remove; type / module / json-schema: no contract here (not_covered)
+// the other indexes: keyed directly by file -> unit c10_remove; module / json-schema: no contract here (not_covered)
 #[verifier::external_body] pub struct LuaDeclIndex { _p: () }
-#[verifier::external_body] pub struct LuaTypeIndex { _p: () }
 #[verifier::external_body] pub struct LuaModuleIndex { _p: () }
 #[verifier::external_body] pub struct LuaPropertyIndex { _p: () }
 #[verifier::external_body] pub struct LuaSignatureIndex { _p: () }
@@ -209,7 +254,6 @@ impl LuaMemberIndex {
 #[verifier::external_body] pub struct LuaDependencyIndex { _p: () }
 #[verifier::external_body] pub struct JsonSchemaIndex { _p: () }
 impl LuaDeclIndex { #[verifier::external_body] pub fn remove(&mut self, file_id: FileId) { unimplemented!() } }
-impl LuaTypeIndex { #[verifier::external_body] pub fn remove(&mut self, file_id: FileId) { unimplemented!() } }
 impl LuaModuleIndex { #[verifier::external_body] pub fn remove(&mut self, file_id: FileId) { unimplemented!() } }
 impl LuaPropertyIndex { #[verifier::external_body] pub fn remove(&mut self, file_id: FileId) { unimplemented!() } }
 impl LuaSignatureIndex { #[verifier::external_body] pub fn remove(&mut self, file_id: FileId) { unimplemented!() } }
@@ -240,6 +284,17 @@ pub open spec fn removed_member(o: &LuaMemberIndex, n: &LuaMemberIndex, f: FileI
     member_wf(o.members@, o.member_current_owner@, o.owner_members@, o.in_filed@) ==>
         member_removed(o.members@, o.member_current_owner@, o.owner_members@, o.in_filed@, n.members@, n.member_current_owner@, n.owner_members@, n.in_filed@, f)
         && member_wf(n.members@, n.member_current_owner@, n.owner_members@, n.in_filed@)
+}
+/// type index: exact post-state of all eleven maps in terms of the ids / owners listed under the file
+pub open spec fn removed_type(o: &LuaTypeIndex, n: &LuaTypeIndex, f: FileId) -> bool {
+    &&& dropped(o.file_namespace@, n.file_namespace@, f) &&& dropped(o.file_using_namespace@, n.file_using_namespace@, f)
+    &&& dropped(o.file_types@, n.file_types@, f) &&& dropped(o.in_filed_type_owner@, n.in_filed_type_owner@, f)
+    &&& ty_inv(o.full_name_type_map@, n.full_name_type_map@, o.supers@, n.supers@, o.generic_params@, n.generic_params@, ty_listed(o, f), ty_listed(o, f).len() as int, f)
+    &&& forall|w: LuaTypeOwner| #[trigger] n.types@.contains_key(w) <==> o.types@.contains_key(w) && !ty_owners(o, f).contains(w)
+    &&& forall|w: LuaTypeOwner| #[trigger] n.types@.contains_key(w) ==> n.types@[w] == o.types@[w]
+    &&& names_inv(o.full_name_type_map@, ty_listed(o, f), ty_listed(o, f).len() as int, f, o.global_name_type_map@, n.global_name_type_map@,
+                  o.internal_name_type_map@, n.internal_name_type_map@, o.local_name_type_map@, n.local_name_type_map@)
+    &&& type_wf(o) ==> type_removed(o, n, f)
 }
 //@@ DbIndex
 impl DbIndex {
